@@ -77,6 +77,27 @@ enum Sink {
     Zero,
 }
 
+/// run-length groups of equal consecutive tokens
+fn rle(toks: Vec<String>) -> Vec<(usize, String)> {
+    let mut out: Vec<(usize, String)> = vec![];
+    for t in toks {
+        match out.last_mut() {
+            Some((n, last)) if *last == t => *n += 1,
+            _ => out.push((1, t)),
+        }
+    }
+    out
+}
+
+/// request tokens with the compact form `rep:<n>:<entry>` for runs of >= 4 equal entries
+fn rle_tokens(toks: Vec<String>) -> String {
+    rle(toks)
+        .into_iter()
+        .flat_map(|(n, t)| if n >= 4 { vec![format!("rep:{n}:{t}")] } else { vec![t; n] })
+        .collect::<Vec<_>>()
+        .join(" ")
+}
+
 impl Spec {
     fn kind(&self) -> &'static str {
         match self {
@@ -90,16 +111,35 @@ impl Spec {
         match self {
             Spec::Rm(a, l) => format!("{a} {l}"),
             Spec::Wm(a, d) => format!("{a}:{}", d.token()),
-            Spec::Rms(es) => es.iter().map(|(a, l)| format!("{a}:{l}")).collect::<Vec<_>>().join(" "),
-            Spec::Wms(es) => es.iter().map(|(a, d)| format!("{a}:{}", d.token())).collect::<Vec<_>>().join(" "),
+            Spec::Rms(es) => rle_tokens(es.iter().map(|(a, l)| format!("{a}:{l}")).collect()),
+            Spec::Wms(es) => rle_tokens(es.iter().map(|(a, d)| format!("{a}:{}", d.token())).collect()),
         }
     }
     fn to_json(&self) -> Value {
         match self {
             Spec::Rm(a, l) => json!({"kind": "rm", "address": a.to_string(), "len": l}),
             Spec::Wm(a, d) => json!({"kind": "wm", "address": a.to_string(), "data": d.to_json()}),
-            Spec::Rms(es) => json!({"kind": "rms", "entries": es.iter().map(|(a, l)| json!([a.to_string(), l])).collect::<Vec<_>>()}),
-            Spec::Wms(es) => json!({"kind": "wms", "entries": es.iter().map(|(a, d)| json!([a.to_string(), d.to_json()])).collect::<Vec<_>>()}),
+            // entries are [address, length | data, repeat count]
+            Spec::Rms(es) => {
+                let groups = rle(es.iter().map(|(a, l)| format!("{a}:{l}")).collect());
+                let mut i = 0;
+                let mut out = vec![];
+                for (n, _) in groups {
+                    out.push(json!([es[i].0.to_string(), es[i].1, n]));
+                    i += n;
+                }
+                json!({"kind": "rms", "entries": out})
+            }
+            Spec::Wms(es) => {
+                let groups = rle(es.iter().map(|(a, d)| format!("{a}:{}", d.token())).collect());
+                let mut i = 0;
+                let mut out = vec![];
+                for (n, _) in groups {
+                    out.push(json!([es[i].0.to_string(), es[i].1.to_json(), n]));
+                    i += n;
+                }
+                json!({"kind": "wms", "entries": out})
+            }
         }
     }
     fn from_json(v: &Value) -> Spec {
@@ -107,8 +147,22 @@ impl Spec {
         match v["kind"].as_str().unwrap() {
             "rm" => Spec::Rm(addr(&v["address"]), v["len"].as_u64().unwrap() as u16),
             "wm" => Spec::Wm(addr(&v["address"]), Data::from_json(&v["data"])),
-            "rms" => Spec::Rms(v["entries"].as_array().unwrap().iter().map(|e| (addr(&e[0]), e[1].as_u64().unwrap() as u16)).collect()),
-            _ => Spec::Wms(v["entries"].as_array().unwrap().iter().map(|e| (addr(&e[0]), Data::from_json(&e[1]))).collect()),
+            "rms" => Spec::Rms(
+                v["entries"]
+                    .as_array()
+                    .unwrap()
+                    .iter()
+                    .flat_map(|e| vec![(addr(&e[0]), e[1].as_u64().unwrap() as u16); e[2].as_u64().unwrap_or(1) as usize])
+                    .collect(),
+            ),
+            _ => Spec::Wms(
+                v["entries"]
+                    .as_array()
+                    .unwrap()
+                    .iter()
+                    .flat_map(|e| vec![(addr(&e[0]), Data::from_json(&e[1])); e[2].as_u64().unwrap_or(1) as usize])
+                    .collect(),
+            ),
         }
     }
 }
@@ -638,6 +692,68 @@ fn main() {
     }
     do_case(&mut rep, &Spec::Wms(vec![(0, Data::Pat(65528, 0))]), 3, Sink::Vec, "oversize-entry");
     do_case(&mut rep, &Spec::Wms(vec![(0, Data::Pat(3, 0)), (0, Data::Pat(70000, 0))]), 3, Sink::Vec, "oversize-entry");
+
+    // ---- every quantity the constructors narrow to 16 bits, far beyond its limit: values that
+    // are small again modulo 2^16 (a truncating cast / wrapping sum would accept them)
+    // (a) ENTRY COUNT: 65535 .. 131073 entries; zero-length reads / empty or 1-byte writes so that
+    //     no other limit (acknowledge total) refuses first
+    let counts = [65535usize, 65536, 65537, 65536 + 1, 65536 + 5461, 65536 + 5462, 131072, 131073, 131072 + 5461];
+    for n in counts {
+        rep.count("narrowing/entry-count");
+        // all entries equal (compact request), zero-length reads
+        do_case(&mut rep, &Spec::Rms(vec![(0x40, 0); n]), 7, Sink::Vec, "narrowing-count");
+        // a distinct first and last entry around the run
+        let mut es = vec![(0x40u64, 0u16); n];
+        es[0] = (0x1000, 0);
+        es[n - 1] = (0x2000, 0);
+        do_case(&mut rep, &Spec::Rms(es), 7, Sink::Exact, "narrowing-count");
+        // 1-byte reads: count AND acknowledge total are beyond 16 bits
+        do_case(&mut rep, &Spec::Rms(vec![(0x40, 1); n]), 7, Sink::Vec, "narrowing-count");
+        do_case(&mut rep, &Spec::Wms(vec![(0x40, Data::Pat(0, 0)); n]), 7, Sink::Vec, "narrowing-count");
+        do_case(&mut rep, &Spec::Wms(vec![(0x40, Data::Pat(1, 0)); n]), 7, Sink::Exact, "narrowing-count");
+    }
+    // (b) SUM OF READ LENGTHS (acknowledge SCD length): totals 65536 + small, 131072 + small with
+    //     few entries (entry count and SCD length are fine)
+    for total in [65536usize, 65537, 65536 + 4, 65536 + 5461, 131072, 131073, 196608] {
+        rep.count("narrowing/read-length-sum");
+        let mut ls = vec![];
+        let mut rest = total;
+        while rest > 0 {
+            let t = rest.min(65535);
+            ls.push(t as u16);
+            rest -= t;
+        }
+        let es: Vec<(u64, u16)> = ls.iter().enumerate().map(|(i, l)| (i as u64 * 0x1_0000, *l)).collect();
+        do_case(&mut rep, &Spec::Rms(es.clone()), 0x0102, Sink::Vec, "narrowing-read-sum");
+        // the same total from many equal small entries (<= 5461 of them)
+        let k = 4096;
+        let per = total / k;
+        let mut es2 = vec![(0x80u64, per as u16); k];
+        es2[0].1 += (total - per * k) as u16;
+        do_case(&mut rep, &Spec::Rms(es2), 0x0102, Sink::Vec, "narrowing-read-sum");
+    }
+    // (c) SUM OF DATA LENGTHS (SCD length of a stacked write): Σ(12 + len) = 65536 + small,
+    //     131072 + small with 2..5 constructible entries
+    for total in [65536usize, 65537, 65536 + 12, 65536 + 24, 131072, 131073, 131072 + 36, 196608 + 12] {
+        rep.count("narrowing/data-length-sum");
+        for n in [2usize, 3, 5] {
+            if total < 12 * n || (total - 12 * n).div_ceil(n) > 65527 {
+                continue;
+            }
+            let per = (total - 12 * n) / n;
+            let mut ls = vec![per; n];
+            ls[0] += total - 12 * n - per * n;
+            let es: Vec<(u64, Data)> = ls.iter().enumerate().map(|(i, l)| (0x4000 + i as u64, Data::Pat(*l, i as u64 % 5))).collect();
+            do_case(&mut rep, &Spec::Wms(es), 3, Sink::Vec, "narrowing-data-sum");
+        }
+    }
+    // (d) PER-ENTRY LENGTH (data_len / len of one WriteMem, alone and inside a stacked write)
+    for n in [65528usize, 65535, 65536, 65537, 65536 + 8, 65536 + 65527, 131072, 131073, 131072 + 8] {
+        rep.count("narrowing/entry-length");
+        do_case(&mut rep, &Spec::Wm(0x99, Data::Pat(n, 1)), 5, Sink::Vec, "narrowing-entry-length");
+        do_case(&mut rep, &Spec::Wms(vec![(0x99, Data::Pat(n, 1))]), 5, Sink::Vec, "narrowing-entry-length");
+        do_case(&mut rep, &Spec::Wms(vec![(1, Data::Pat(2, 0)), (0x99, Data::Pat(n, 1)), (2, Data::Pat(3, 0))]), 5, Sink::Vec, "narrowing-entry-length");
+    }
 
     // ---- random
     let rounds = if args.thorough() { 60_000 } else { 6_000 };
